@@ -1,6 +1,7 @@
 (* Every path through a function body regenerated from the source (Generated.body_census): branches of if / select /
    switch are all taken, a loop body runs zero times or once, a return ends the function, deferred calls run at the end in
-   reverse order.  A path is the list of calls executed, in order.  Definitions only. *)
+   reverse order.  A path is the list of calls executed, in order, together with the select / switch arm chosen
+   ("arm <label>") and the goroutines started ("go <callee>").  Definitions only. *)
 From Coq Require Import Bool.
 From FMP Require Import Model.GenTypes Model.Generated.
 Open Scope string_scope.
@@ -24,10 +25,10 @@ Fixpoint exec (fuel : nat) (b : list stm) (s : pst) : list pst :=
             | SCallF c => [mkPst (c :: p_tr s) (p_def s) false]
             | SDeferF c => [mkPst (p_tr s) (DCallI c :: p_def s) false]
             | SDeferBlock bl => [mkPst (p_tr s) (DBlockI bl :: p_def s) false]
-            | SGo _ => [s]
+            | SGo c => [mkPst (("go " ++ c) :: p_tr s) (p_def s) false]
             | SReturn => [mkPst (p_tr s) (p_def s) true]
             | SIf _ t e => (exec f t s ++ exec f e s)%list
-            | SSelect arms => flat_map (fun a => exec f (snd a) s) arms
+            | SSelect arms => flat_map (fun a => exec f (snd a) (mkPst (("arm " ++ fst a) :: p_tr s) (p_def s) false)) arms
             | SLoop bl => s :: exec f bl s
             end in
           flat_map (fun s' => exec f rest s') after
@@ -118,3 +119,131 @@ Definition paths_nonvacuous : bool :=
   some_path "dispatch.Call" (fun tr => occurs "d.handleCancel" tr && occurs "record.RecordAndFinish" tr) &&
   some_path "dispatch.Call" (fun tr => occurs "d.writer.compressData" tr && negb (occurs "d.writer.EncodeAndWrite" tr)) &&
   Nat.leb 20 (length (traces_of "dispatch.Call")).
+
+(* ---------- second batch: receive side, writer loop, reconnect loop (regenerated bodies added to body_census) ---------- *)
+Fixpoint immediately_followed (x y : string) (tr : list string) : bool :=
+  match tr with
+  | [] => true
+  | a :: r => (if String.eqb a x then match r with b :: _ => String.eqb b y | [] => false end else true)
+              && immediately_followed x y r
+  end.
+Fixpoint immediately_preceded (x y : string) (prev : option string) (tr : list string) : bool :=   (* every y has x just before it *)
+  match tr with
+  | [] => true
+  | a :: r => (if String.eqb a y then match prev with Some b => String.eqb b x | None => false end else true)
+              && immediately_preceded x y (Some a) r
+  end.
+Definition last_is (x : string) (tr : list string) : bool :=
+  match rev tr with a :: _ => String.eqb a x | [] => false end.
+(* the names occur in this order (each after the first occurrence of the one before) *)
+Fixpoint in_order (xs : list string) (tr : list string) : bool :=
+  match xs with
+  | [] => true
+  | x :: r => match after_first x tr with Some rest => in_order r rest | None => false end
+  end.
+Definition go_lit : string := "go (func() literal)".
+
+(* C07: a request that cannot be served (its decoding recorded an error, or no such protocol / method) is answered by exactly
+   one Reply and starts no handler goroutine; a request that can be served is never answered from the receive goroutine, and
+   its goroutine is started only on the arm that registered the task (on the stop arm the context is cancelled instead) *)
+Definition dispatch_paths_notfound : bool :=
+  all_paths "receiveHandler.handleReceiveDispatch"
+    (fun tr => if occurs "req.LogInvocation" tr
+               then Nat.eqb (count_of "req.Reply" tr) 1 && negb (occurs go_lit tr) && last_is "req.Reply" tr
+               else negb (occurs "req.Reply" tr)) &&
+  all_paths "receiveHandler.handleReceiveDispatch"
+    (fun tr => implb (occurs go_lit tr)
+                     (occurs "arm Arm Send ""r.taskBeginCh""" tr && Nat.eqb (count_of go_lit tr) 1
+                      && occurs "r.protHandler.findServeHandler" tr)) &&
+  all_paths "receiveHandler.handleReceiveDispatch"
+    (fun tr => implb (occurs "arm Arm Recv ""r.stopCh""" tr) (negb (occurs go_lit tr) && occurs "req.CancelFunc()" tr)) &&
+  some_path "receiveHandler.handleReceiveDispatch" (occurs go_lit) &&
+  Nat.eqb (length (filter (occurs "req.Reply") (traces_of "receiveHandler.handleReceiveDispatch"))) 2.
+
+(* C07 / C12: a response naming an unknown seqno is dropped before its error or result is decoded (one Decode: the seqno),
+   nothing is unwrapped into anybody's buffer, and receiveResponse hands a response over at most once, never blocking *)
+Definition response_paths_unknown_ignored : bool :=
+  all_paths "rpcResponseMessage.DecodeMessage"
+    (fun tr => implb (occurs "newCallNotFoundError" tr)
+                     (Nat.eqb (count_of "d.Decode" tr) 1 && negb (occurs "r.c.errorUnwrapper.UnwrapError" tr)
+                      && negb (occurs "compressor.Decompress" tr) && last_is "newCallNotFoundError" tr)) &&
+  all_paths "rpcResponseMessage.DecodeMessage" (preceded_by "cc.RetrieveCall" "r.c.errorUnwrapper.UnwrapError") &&
+  all_paths "rpcResponseMessage.DecodeMessage" (at_most_once "cc.RetrieveCall") &&
+  all_paths "receiveHandler.receiveResponse"
+    (fun tr => Nat.leb (count_of "arm Arm Send ""callResponseCh""" tr) 1
+               && implb (occurs "newCallNotFoundError" tr) (negb (occurs "arm Arm Send ""callResponseCh""" tr))) &&
+  some_path "receiveHandler.receiveResponse" (occurs "arm default").
+
+(* C13: in the writer goroutine the send notifier runs immediately before the Write of the same queue item, at most one
+   Write per item, nothing is written on the way out *)
+Definition writer_paths_notify_then_write : bool :=
+  all_paths "framedMsgpackEncoder.writerLoop" (immediately_followed "write.sn" "e.writer.Write") &&
+  all_paths "framedMsgpackEncoder.writerLoop" (at_most_once "e.writer.Write") &&
+  all_paths "framedMsgpackEncoder.writerLoop" (at_most_once "write.sn") &&
+  all_paths "framedMsgpackEncoder.writerLoop"
+    (fun tr => implb (occurs "arm Arm Recv ""e.doneCh""" tr) (negb (occurs "e.writer.Write" tr) && negb (occurs "write.sn" tr))) &&
+  all_paths "framedMsgpackEncoder.writerLoop"
+    (fun tr => implb (occurs "e.writer.Write" tr) (occurs "arm Arm Recv ""e.writeCh""" tr)) &&
+  some_path "framedMsgpackEncoder.writerLoop" (occurs "write.sn").
+
+(* C07 / C10: whatever ends the receive loop, the transport is closed with that error, as the last thing the goroutine does,
+   exactly once; a frame is handed to the receiver only after NextFrame produced it *)
+Definition receive_loop_paths_close : bool :=
+  all_paths "transport.receiveFramesLoop" (last_is "t.closeWithErr") &&
+  all_paths "transport.receiveFramesLoop" (fun tr => Nat.eqb (count_of "t.closeWithErr" tr) 1) &&
+  all_paths "transport.receiveFramesLoop" (preceded_by "t.packetizer.NextFrame" "t.receiver.Receive") &&
+  some_path "transport.receiveFramesLoop" (occurs "t.receiver.Receive").
+
+(* C20: Finish stores at most one record, and a second Finish (the path that makes the error) stores nothing *)
+Definition finish_paths_once : bool :=
+  all_paths "NetworkInstrumenter.Finish" (at_most_once "r.storage.Put") &&
+  all_paths "NetworkInstrumenter.Finish" (fun tr => implb (occurs "errors.New" tr) (negb (occurs "r.storage.Put" tr))) &&
+  all_paths "NetworkInstrumenter.Finish" (preceded_by "r.Lock" "r.storage.Put") &&
+  some_path "NetworkInstrumenter.Finish" (occurs "r.storage.Put").
+
+(* C09 / C11: the task loop returns only through its stop arm, having closed its channel after cancelling; the begin arm
+   cancels nobody; cancel and end arms call at most the one cancel function they looked up *)
+Definition taskloop_paths : bool :=
+  all_paths "receiveHandler.taskLoop"
+    (fun tr => implb (occurs "close" tr) (occurs "arm Arm Recv ""r.stopCh""" tr && last_is "close" tr)) &&
+  all_paths "receiveHandler.taskLoop"
+    (fun tr => implb (occurs "arm Arm Recv ""r.taskBeginCh""" tr) (negb (occurs "cancelFunc" tr))) &&
+  all_paths "receiveHandler.taskLoop"
+    (fun tr => implb (occurs "arm Arm Recv ""r.taskCancelCh""" tr || occurs "arm Arm Recv ""r.taskEndCh""" tr)
+                     (Nat.leb (count_of "cancelFunc" tr) 1 && Nat.eqb (count_of "delete" tr) 1)) &&
+  some_path "receiveHandler.taskLoop" (fun tr => occurs "arm Arm Recv ""r.stopCh""" tr && occurs "cancelFunc" tr).
+
+(* C15: inside DoCommand the command (backoff.RetryNotify runs it) is attempted only after waitForConnection returned in the
+   same round, and a fire-now marker fast-forwards the timer before waiting *)
+Definition docommand_paths : bool :=
+  all_paths "Connection.DoCommand" (immediately_preceded "c.doCommandBackoff" "backoff.RetryNotify" None) &&
+  all_paths "Connection.DoCommand" (preceded_by "c.waitForConnection" "backoff.RetryNotify") &&
+  all_paths "Connection.DoCommand" (preceded_by "c.connectDelayTimer.FireNow" "c.connectDelayTimer.FireNow") &&
+  all_paths "Connection.DoCommand"
+    (fun tr => implb (occurs "c.connectDelayTimer.FireNow" tr)
+                     (match after_first "c.connectDelayTimer.FireNow" tr with Some r => occurs "c.waitForConnection" r | None => false end)) &&
+  some_path "Connection.DoCommand" (occurs "c.checkForRetry").
+
+(* C14 / C16: one reconnect sequence announces the disconnect first and exactly once, runs exactly one retry loop, starts a
+   delay timer at most once and, when it does, asks for the requested fire-now AFTER starting it and BEFORE waiting, and
+   releases its waiters (close under the mutex) after the loop *)
+Definition doreconnect_paths : bool :=
+  all_paths "Connection.doReconnect" (fun tr => match tr with a :: _ => String.eqb a "c.handler.OnDisconnected" | [] => false end) &&
+  all_paths "Connection.doReconnect" (fun tr => Nat.eqb (count_of "c.handler.OnDisconnected" tr) 1
+                                                && Nat.eqb (count_of "backoff.RetryNotifyWithContext" tr) 1) &&
+  all_paths "Connection.doReconnect"
+    (fun tr => Nat.leb (count_of "c.connectDelayTimer.StartConstant" tr + count_of "c.connectDelayTimer.StartRandom" tr) 1
+               && Nat.eqb (count_of "c.connectDelayTimer.Wait" tr)
+                          (count_of "c.connectDelayTimer.StartConstant" tr + count_of "c.connectDelayTimer.StartRandom" tr)) &&
+  all_paths "Connection.doReconnect"
+    (fun tr => implb (occurs "c.connectDelayTimer.StartConstant" tr)
+                     (in_order ["c.connectDelayTimer.StartConstant"; "c.fireConnectDelayTimerIfRequested"; "c.connectDelayTimer.Wait"; "backoff.RetryNotifyWithContext"] tr)
+               && implb (occurs "c.connectDelayTimer.StartRandom" tr)
+                     (in_order ["c.connectDelayTimer.StartRandom"; "c.fireConnectDelayTimerIfRequested"; "c.connectDelayTimer.Wait"; "backoff.RetryNotifyWithContext"] tr)
+               && Nat.eqb (count_of "c.fireConnectDelayTimerIfRequested" tr) (count_of "c.connectDelayTimer.Wait" tr)) &&
+  all_paths "Connection.doReconnect"
+    (fun tr => match after_first "backoff.RetryNotifyWithContext" tr with
+               | Some r => match after_first "c.mutex.Lock" r with Some r2 => occurs "close" r2 | None => false end
+               | None => false end) &&
+  some_path "Connection.doReconnect" (occurs "c.connectDelayTimer.StartRandom") &&
+  some_path "Connection.doReconnect" (fun tr => negb (occurs "c.connectDelayTimer.Wait" tr)).
